@@ -1,7 +1,8 @@
 (* Verifier.v - a byte-code verifier for compiled programs (C18).
    It decodes each body linearly, checks opcodes / operands / jump targets /
    constant references, and checks an inductive lower bound on the stack
-   depth along every edge of the control-flow graph (computed by iteration,
+   depth - and on the stack heights remembered by the foreach loops that are
+   open - along every edge of the control-flow graph (computed by iteration,
    then checked).  The extracted verifier is run on the real programs the
    Go implementation produces.  Definitions only. *)
 From EF Require Import Model.Base Gen.Tables Model.Code Model.Value Model.Compiler.
@@ -10,7 +11,7 @@ Open Scope N_scope.
 Inductive vreason :=
 | VUnknownOpcode (ip : N) | VTruncated (ip : N) | VBadJump (ip : N) | VBadConstant (ip : N)
 | VNameNotString (ip : N) | VUnderflow (ip : N) | VNotInductive (ip : N) | VFallsOff | VNoFixpoint
-| VIterNoJump (ip : N).
+| VIterNoJump (ip : N).     (* also: an IterationNext with no loop open *)
 Inductive vresult := VOk | VBad (r : vreason).
 
 Record instr := mkI { iip : N; iop : N; iarg : N; ilen : N }.
@@ -63,30 +64,62 @@ Definition pushes (i : instr) : N :=
               OpIterationReset] then 1
   else 0.
 
-(* the successors of an instruction with the stack depth on each edge, given depth d >= pops before it.
+(* The abstract state at an instruction: a lower bound on the stack depth, and for every foreach loop
+   that is open in this body (innermost first) a lower bound on the stack height it remembered. *)
+Definition astate := (N * list N)%type.
+
+(* the successors of an instruction with the abstract state on each edge, given depth d >= pops before it.
    `next` is the instruction that follows in the body (needed for the two-way IterationNext) *)
-Definition edges (i : instr) (next : option instr) (d : N) : option (list (N * N)) :=
+Definition edges (i : instr) (next : option instr) (st : astate) : option (list (N * astate)) :=
+  let '(d, ms) := st in
   let after := d - pops i + pushes i in
   let op := iop i in
   if op =? OpReturn then Some []
-  else if op =? OpJump then Some [(iarg i, after)]
-  else if op =? OpJumpIfFalse then Some [(iip i + 3, after); (iarg i, after)]
+  else if op =? OpJump then Some [(iarg i, (after, ms))]
+  else if op =? OpJumpIfFalse then Some [(iip i + 3, (after, ms)); (iarg i, (after, ms))]
+  else if op =? OpIterationReset then
+    (* the loop remembers the height of the stack with its iterator on top *)
+    Some [(iip i + ilen i, (after, after :: ms))]
   else if op =? OpIterationNext then
-    (* IterationNext; JumpIfFalse L: continue with the iterator on the stack, or leave with nothing *)
-    match next with
-    | Some j => if iop j =? OpJumpIfFalse then Some [(iip j + 3, d - 3 + 1); (iarg j, d - 3)] else None
-    | None => None
+    (* IterationNext; JumpIfFalse L: the two names are popped, the stack is cut back to the remembered
+       height (if it is higher), and the loop continues with its iterator on top or leaves without it *)
+    match next, ms with
+    | Some j, k :: ms0 =>
+        if iop j =? OpJumpIfFalse then
+          let b := N.min (d - 2) k in
+          if b =? 0 then None        (* the iterator itself would be cut away *)
+          else Some [(iip j + 3, (b, k :: ms0)); (iarg j, (b - 1, ms0))]
+        else None
+    | _, _ => None
     end
-  else Some [(iip i + ilen i, after)].
+  else Some [(iip i + ilen i, (after, ms))].
 
-Definition ann := list (N * N).           (* instruction start -> lower bound on the stack depth there *)
-Fixpoint ann_get (a : ann) (ip : N) : option N :=
+Definition ann := list (N * astate).           (* instruction start -> abstract state there *)
+Fixpoint ann_get (a : ann) (ip : N) : option astate :=
   match a with [] => None | (k, v) :: a' => if k =? ip then Some v else ann_get a' ip end.
-Fixpoint ann_set (a : ann) (ip d : N) : ann :=
+Fixpoint ann_set (a : ann) (ip : N) (d : astate) : ann :=
   match a with
   | [] => [(ip, d)]
   | (k, v) :: a' => if k =? ip then (k, d) :: a' else (k, v) :: ann_set a' ip d
   end.
+
+(* pointwise comparison / minimum of two lists of remembered heights (of equal length) *)
+Fixpoint marks_le (bs ms : list N) : bool :=
+  match bs, ms with
+  | [], [] => true
+  | b :: bs', m :: ms' => (b <=? m) && marks_le bs' ms'
+  | _, _ => false
+  end.
+Fixpoint marks_min (bs ms : list N) : list N :=
+  match bs, ms with
+  | b :: bs', m :: ms' => N.min b m :: marks_min bs' ms'
+  | _, _ => []
+  end.
+Definition state_le (old new : astate) : bool := (fst old <=? fst new) && marks_le (snd old) (snd new).
+(* the greatest state below both; loops must nest the same way on both paths (the final check rejects otherwise) *)
+Definition state_meet (old new : astate) : astate :=
+  (N.min (fst old) (fst new),
+   if Nat.eqb (List.length (snd old)) (List.length (snd new)) then marks_min (snd old) (snd new) else snd old).
 
 (* one pass of the data-flow iteration: lower the bounds along every edge *)
 Fixpoint flow_pass (is : list instr) (a : ann) (changed : bool) : ann * bool :=
@@ -95,16 +128,19 @@ Fixpoint flow_pass (is : list instr) (a : ann) (changed : bool) : ann * bool :=
   | i :: rest =>
       match ann_get a (iip i) with
       | None => flow_pass rest a changed
-      | Some d =>
-          if d <? pops i then flow_pass rest a changed      (* reported by the final check *)
+      | Some st =>
+          if fst st <? pops i then flow_pass rest a changed      (* reported by the final check *)
           else
-            match edges i (match rest with j :: _ => Some j | [] => None end) d with
+            match edges i (match rest with j :: _ => Some j | [] => None end) st with
             | None => flow_pass rest a changed
             | Some es =>
                 let '(a', ch') := fold_left (fun acc e =>
                                    let '(a0, c0) := acc in
                                    match ann_get a0 (fst e) with
-                                   | Some old => if snd e <? old then (ann_set a0 (fst e) (snd e), true) else (a0, c0)
+                                   | Some old => if state_le old (snd e) then (a0, c0)
+                                                 else let nw := state_meet old (snd e) in
+                                                      if state_le old nw then (a0, c0)      (* loops nest differently: left to the check *)
+                                                      else (ann_set a0 (fst e) nw, true)
                                    | None => (ann_set a0 (fst e) (snd e), true)
                                    end) es (a, changed) in
                 (* the JumpIfFalse that follows an IterationNext never gets an annotation of its own *)
@@ -134,15 +170,15 @@ Fixpoint check (consts : list value) (is all : list instr) (len : N) (a : ann) :
       else
         match ann_get a (iip i) with
         | None => check consts rest all len a                 (* unreachable code *)
-        | Some d =>
-            if d <? pops i then VBad (VUnderflow (iip i))
+        | Some st =>
+            if fst st <? pops i then VBad (VUnderflow (iip i))
             else
               let nexti := match rest with j :: _ => Some j | [] => None end in
-              match edges i nexti d with
+              match edges i nexti st with
               | None => VBad (VIterNoJump (iip i))
               | Some es =>
                   if forallb (fun e => match ann_get a (fst e) with
-                                       | Some b => b <=? snd e
+                                       | Some b => state_le b (snd e)
                                        | None => len <=? fst e     (* falling off the end of the main body *)
                                        end) es
                   then check consts rest all len a
@@ -168,7 +204,7 @@ Definition verify_body (consts : list value) (is_function : bool) (code : list N
                                    end)
           then VBad VFallsOff
           else
-            match flow (S (S (4 * List.length is))) is [(0, 0)] with
+            match flow (S (S (4 * List.length is))) is [(0, (0, []))] with
             | None => VBad VNoFixpoint
             | Some a => check consts is is len a
             end
